@@ -3,6 +3,7 @@ import Driver.RingStream
 import Driver.ProcStream
 import Driver.ThrStream
 import Driver.LogStream
+import Driver.DetStream
 open Driver
 
 def main (args : List String) : IO UInt32 := do
@@ -15,4 +16,6 @@ def main (args : List String) : IO UInt32 := do
   | ["mon", "throttle"] => runMon ThrStream.monInit ThrStream.monStep ThrStream.monFinish; return 0
   | ["model", "loglimiter"] => runModel LogStream.init LogStream.step; return 0
   | ["mon", "loglimiter"] => runMon LogStream.monInit LogStream.monStep LogStream.monFinish; return 0
+  | ["model", "detector"] => runModel DetStream.init DetStream.step; return 0
+  | ["mon", "detector"] => runMon DetStream.monInit DetStream.monStep DetStream.monFinish; return 0
   | _ => IO.eprintln "usage: driver model|mon <stream>"; return 2
